@@ -533,7 +533,7 @@ pub fn run(ctx: &Ctx) -> Verdict {
         "interleavings inside std::sync::Mutex are not controlled".into(),
     ];
     v.subs.push(super::replay_corpus(ctx));
-    let n = ctx.tier.pick(40_000, 800_000);
+    let n = ctx.tier.pick(120_000, 3_000_000);
     v.subs.push(vcore::run_proptest(ctx, "histories", n, case_strategy(), check));
     v.subs.push(vcore::run_enumerated(ctx, "grid", grid(), |c| check(c).map(|i| CaseInfo { nontrivial: true, classes: i.classes })));
     let small: &[(u8, u8)] = match ctx.tier {
@@ -547,6 +547,7 @@ pub fn run(ctx: &Ctx) -> Verdict {
         s.name = format!("racing-{}", s.name);
         v.subs.push(s);
     }
+    v.subs.extend(super::variant_reports(ctx, &["nostd-spin"]));
     v
 }
 
